@@ -1,12 +1,13 @@
-CONSTANTS Family = "S"
+CONSTANTS Family = "D"
   G = 4
-  MaxV = 6
+  MaxV = 0
   Emit = TRUE
-  StartRows = {0}
+  StartRows = {}
 INIT Init
 NEXT Next
 INVARIANT GenValid
 INVARIANT PathSimple
 INVARIANT RefValid
 INVARIANT PickOK
+INVARIANT MutantsRejected
 CHECK_DEADLOCK FALSE
